@@ -158,6 +158,10 @@ type RefSession struct {
 	// side ever wrote) at which frames written by this side end.
 	FrameEnds []int64
 	wrote     int64
+	// HandshakeLen is the length of the peer's handshake message as parsed from
+	// the byte stream (client hello for a reference server, server response
+	// for a reference client), however the peer split it into writes.
+	HandshakeLen int
 }
 
 func (s *RefSession) write(p []byte) error {
@@ -219,6 +223,7 @@ func RefClient(conn net.Conn, B, id []byte, o ClientOpts, r io.Reader) (*RefSess
 				s.KeySeed = ks
 				s.Tx = ref.NewLinkKey(okm[:72])
 				s.Rx = &ref.Opener{K: ref.NewLinkKey(okm[72:])}
+				s.HandshakeLen = used
 				s.feed(buf[used:])
 				return s, hello, nil
 			}
@@ -298,7 +303,7 @@ func RefServer(conn net.Conn, idn *ref.Identity, o ServerOpts, r io.Reader) (*Re
 		resp = o.Mutate(resp)
 	}
 	okm := ref.Kdf(ks, 144)
-	s := &RefSession{Conn: conn, KeySeed: ks}
+	s := &RefSession{Conn: conn, KeySeed: ks, HandshakeLen: len(buf)}
 	s.Tx = ref.NewLinkKey(okm[72:])
 	s.Rx = &ref.Opener{K: ref.NewLinkKey(okm[:72])}
 	out := resp
